@@ -218,6 +218,15 @@ def apply_summary(an, s, h):
     s.env[role["result"]] = r
     s.env[role["pwr4"]] = an.cint(64, 0)
     s.env[role["scaled"]] = rem
+    if s.mono is not None:
+        # floor(sqrt(N)) moves with N; the remainder does not
+        tn = s.mono.get(role["scaled"])
+        if tn is None:
+            s.mono.pop(role["result"], None)
+        else:
+            s.mono[role["result"]] = tn
+        s.mono[role["pwr4"]] = 0
+        s.mono.pop(role["scaled"], None)
     s.pc = len(an.head_phis[h])
     s.phis_done = True
     return True
